@@ -106,7 +106,9 @@ pub async fn run_seq(role: Role, state: State, seq: &[usize], alpha: &[Tpl], rev
     cfg.max_qos = 2;
     cfg.max_topic_alias = 8;
     cfg.peer_topic_alias_max = 8;
-    cfg.min_chunk_size = 0;
+    // every fragment of a payload is handed over as a chunk of its own (0 would make the decoder
+    // wait for the complete rest of the payload)
+    cfg.min_chunk_size = 1;
     // a byte limit on concurrently handled publishes that the 10-byte streamed PUBLISH of the
     // alphabet exceeds: its chunks have to pass the limiter while its handler is running
     cfg.max_receive_size = 8;
